@@ -58,7 +58,75 @@ def fillers(eng):
     return F
 
 
-def _flows_to_filler(eng, f, S, F) -> bool:
+def _truthy_value(eng, f, v, depth=2) -> bool:
+    """the expression is always truthy: a true constant, a non-empty display, or a call of a repository function all of
+    whose returns are such values"""
+    if isinstance(v, ast.Constant):
+        return bool(v.value)
+    if isinstance(v, (ast.Dict,)):
+        return len(v.keys) > 0
+    if isinstance(v, (ast.List, ast.Tuple, ast.Set)):
+        return len(v.elts) > 0 and not any(isinstance(e, ast.Starred) for e in v.elts)
+    if isinstance(v, ast.Call) and depth > 0:
+        ts = eng.repo_callees(f, v)
+        if len(ts) != 1:
+            return False
+        t = ts[0]
+        rets = [r for r in own_nodes(t.node) if isinstance(r, ast.Return)]
+        if not rets or any(r.value is None for r in rets):
+            return False
+        tf = eng.flow(t)
+        for r in rets:
+            rv = r.value
+            if isinstance(rv, ast.Name):
+                ds = tf.reaching(rv.id, tf.cfg.node_of(r))
+                if not ds or not all(d.kind == "assign" and d.value is not None and _truthy_value(eng, t, d.value, depth - 1) for d in ds):
+                    return False
+            elif not _truthy_value(eng, t, rv, depth - 1):
+                return False
+        # falling off the end returns None
+        last = t.node.body[-1]
+        return isinstance(last, (ast.Return, ast.Raise))
+    return False
+
+
+def _keyed_before(f, cfg, d, name, test_nid) -> bool:
+    """between the definition d of `name` and the loop test, every path reads `name["<key>"]`: the read succeeds only on
+    a mapping that has the key, i.e. on a non-empty (truthy) one — otherwise the path ends in an exception"""
+    keyed = set()
+    for n in own_nodes(f.node):
+        if isinstance(n, ast.Subscript) and isinstance(n.ctx, ast.Load) and isinstance(n.value, ast.Name) and n.value.id == name \
+                and isinstance(n.slice, ast.Constant) and isinstance(n.slice.value, str) and cfg.has(n):
+            keyed.add(cfg.node_of(n))
+    keyed.discard(d.nid)
+    if not keyed:
+        return False
+    starts = [x for x, lab in cfg.succ[d.nid] if lab != "exc"]
+    return test_nid not in cfg.reachable(starts, avoid_nodes=keyed, skip_exc=True)
+
+
+def _never_false_loop_tests(eng, f):
+    """F-edges of `while <name>:` tests whose every reaching definition is always truthy (the loop ends by break only)."""
+    fl = eng.flow(f)
+    cfg = fl.cfg
+    out = set()
+    for w in own_nodes(f.node):
+        if isinstance(w, ast.While) and isinstance(w.test, ast.Name):
+            nid = cfg.node_of(w)
+            ds = fl.reaching(w.test.id, nid)
+            if ds and all(d.kind == "assign" and d.value is not None and (_truthy_value(eng, f, d.value) or _keyed_before(f, cfg, d, w.test.id, nid)) for d in ds):
+                for dst, lab in cfg.succ[nid]:
+                    if lab == "F":
+                        out.add((nid, dst, lab))
+    return frozenset(out)
+
+
+def _flows_to_filler(eng, f, S, F, site=None):
+    """True when a carrier of the id is an argument of a completing call; with `site` given that call must lie on every
+    path from the site to the function's normal exit (None: it flows there, but only on some paths)."""
+    cfg = eng.flow(f).cfg if site is not None else None
+    dead = _never_false_loop_tests(eng, f) if site is not None else frozenset()
+    some = False
     for c in calls(f):
         for t in eng.repo_callees(f, c):
             ps = F.get(t.qualname)
@@ -67,8 +135,10 @@ def _flows_to_filler(eng, f, S, F) -> bool:
             for i, a in enumerate(c.args):
                 idx = i + 1  # bound method: skip self
                 if idx < len(t.params) and t.params[idx] in ps and isinstance(a, ast.Name) and a.id in S:
-                    return True
-    return False
+                    if site is None or cfg.must_follow(cfg.node_of(site), cfg.node_of(c), avoid_edges=dead):
+                        return True
+                    some = True
+    return None if some else False
 
 
 def ag_fill(eng, res, rule="R-AG-FILL"):
@@ -80,8 +150,11 @@ def ag_fill(eng, res, rule="R-AG-FILL"):
 
     def check_site(f, var, site, depth=0):
         S = _carriers(f, {var})
-        if _flows_to_filler(eng, f, S, F):
+        fl_ = _flows_to_filler(eng, f, S, F, site)
+        if fl_:
             return True, "flows into the static completion"
+        if fl_ is None:
+            return False, "the static completion of the entered atom's residue is skipped on some path (it must follow every entry)"
         # returned to the caller: every caller must complete it
         rets = [r for r in own_nodes(f.node) if isinstance(r, ast.Return) and isinstance(r.value, ast.Name) and r.value.id in S]
         if rets and depth < 3:
@@ -228,6 +301,30 @@ def ag_rng(eng, res, rule="R-AG-RNG"):
             n += 1
             a = c.args[0] if c.args else kwarg(c, "rng")
             res.ob(rule, f, f"draw:{f.name}", "the target mass is drawn with the generator given to the AtomGraph", c, a is not None and src(a) == "self.rng", f"argument {src(a) if a is not None else 'missing'}")
+    # picks made in module-level helpers: the generator must be a parameter that every caller fills with self.rng
+    ms = methods(eng)
+    for q, h in sorted(eng.prog.functions.items()):
+        if h.module.name != "graph_generate" or h in ms or h.cls is not None:
+            continue
+        for c in calls(h, "choice") + calls(h, "draw_mw") + calls(h, "random") + calls(h, "uniform"):
+            recv = c.func.value if isinstance(c.func, ast.Attribute) else None
+            prm = recv.id if isinstance(recv, ast.Name) and recv.id in h.params else None
+            n += 1
+            res.unit(h)
+            if prm is None and callee_name(c) == "draw_mw":
+                a = c.args[0] if c.args else kwarg(c, "rng")
+                prm = a.id if isinstance(a, ast.Name) and a.id in h.params else None
+            if prm is None:
+                res.ob(rule, h, f"helper-pick:{h.name}", "a helper's random pick uses a generator it is handed as a parameter", c, False, f"receiver {src(recv) if recv is not None else '?'}")
+                continue
+            pos = h.params.index(prm)
+            sites = [(g, cc) for g in ms for cc in calls(g) if h in eng.repo_callees(g, cc)]
+            bad = []
+            for g, cc in sites:
+                a = cc.args[pos] if len(cc.args) > pos else kwarg(cc, prm)
+                if a is None or src(a) != "self.rng":
+                    bad.append(f"{g.name} line {cc.lineno}: {src(a) if a is not None else 'not supplied (the default generator is used)'}")
+            res.ob(rule, h, f"helper-pick:{h.name}", "every caller hands the AtomGraph's own generator to the helper that makes a random pick", c, bool(sites) and not bad, "; ".join(bad) or "no caller")
     init = eng.prog.func(f"{CLS}.__init__")
     res.unit(init)
     fl = eng.flow(init)
@@ -240,6 +337,22 @@ def ag_rng(eng, res, rule="R-AG-RNG"):
     mp = [s for s in own_nodes(init.node) if isinstance(s, ast.Assign) and src(s.targets[0]) == "self._mw_draw_map"]
     res.ob(rule, init, "draw-map-per-instance", "drawn target masses are remembered per AtomGraph instance", init.node, len(mp) == 1 and src(mp[0].value) == "{}")
     return n
+
+
+def ag_fresh_state(eng, res, rule="R-AG-FRESH-STATE"):
+    """Each generate() builds its molecule in a new graph: the assignment of an empty graph dominates every node / edge
+    insertion of the call (an AtomGraph may be asked for several molecules)."""
+    res.doc(rule, "generate() starts from a new empty graph (nothing of an earlier molecule is kept)")
+    g = eng.prog.func(f"{CLS}.generate")
+    res.unit(g)
+    cfg = eng.flow(g).cfg
+    st = [s for s in own_nodes(g.node) if isinstance(s, ast.Assign) and src(s.targets[0]) == "self.graph"]
+    fresh = [s for s in st if isinstance(s.value, ast.Call) and src(s.value.func).split(".")[-1] == "Graph" and not s.value.args]
+    uses = [c for c in calls(g) if isinstance(c.func, ast.Attribute) and src(c.func.value) == "self" and c.func.attr.startswith("_") and c.func.attr not in ("_find_start_source",)]
+    uses += [c for c in calls(g, "add_edge")]
+    ok = len(fresh) == 1 and len(st) == 1 and bool(uses) and all(cfg.must_pass(cfg.node_of(fresh[0]), cfg.node_of(u)) for u in uses)
+    res.ob(rule, g, "new-graph-per-call", "an empty graph is assigned before the first node or edge of the call is inserted", fresh[0] if fresh else g.node, ok,
+           f"{len(fresh)} assignment(s) of a new graph in generate()")
 
 
 def ag_mol(eng, res, rule="R-AG-MOL"):
@@ -401,6 +514,10 @@ def ag_static_graph(eng, res, rule="R-AG-STATIC-GRAPH"):
 
 
 def check(eng, res):
+    from ..fresh import fresh_flags
+
+    res.doc("R-FRESH-FLAG", "A-FRESH: no condition flag tested inside a loop keeps its value from a previous iteration")
+    fresh_flags(eng, res, {'graph_generate'})
     res.doc("R-AG-CONSUME", "a node that forms a non-static bond clears its edge lists (typestate open -> used), at all three bonding sites")
     res.doc("R-AG-STATIC-GRAPH", "the static template's bond orders come from static edges only")
     res.doc("R-AG-FILL", "typestate by def-use flow: every node id obtained from _add_node outside the static completion reaches _fill_static_edges; the completion covers the whole residue")
@@ -412,7 +529,8 @@ def check(eng, res):
     n = ag_edge_origin(eng, res)
     res.floor("R-AG-EDGE-ORIGIN", n, 3)
     n = ag_rng(eng, res)
-    res.floor("R-AG-RNG", n, 6)
+    res.floor("R-AG-RNG", n, 5)
+    ag_fresh_state(eng, res)
     n = ag_consume(eng, res)
     res.floor("R-AG-CONSUME", n, 3)
     ag_static_graph(eng, res)
